@@ -243,6 +243,56 @@ RunOutcome exec_C19(const Case &c) {
             }
         }
     }
+    // ---- capacity ladder ("every exact size of the growable arrays relative to their capacity"): incomplete LU takes its initial
+    //      capacity of lusup / ucol / lsub / usub from ILU_FillFactor x nnz(A), a real number, and with the basic dropping rule (or none)
+    //      the factors do not depend on it. For the first such call of the lifecycle the column pointers of the factors it returned
+    //      tell how full each array is when column j starts; the call is repeated (library allocation, clean and dirty memory) with
+    //      the fill factor chosen so that the capacity equals exactly that fill level - at sampled columns j, for each of the three
+    //      arrays, and one element more / less. Same oracles (sanitizers, ledger), and the factors must come out bit-identical.
+    if (!force_dirty && !singular) {
+        int li = -1, ni = -1;
+        for (size_t i = 0; i < plan.ops.size() && li < 0; i++) {
+            const Op &o = plan.ops[i];
+            if (!(o.kind == "ipipe" || o.kind == "gsisx") || o.fact != DOFACT || o.lwork != 0 || !o.faults.empty() || !(o.droprule == DROP_BASIC || o.droprule == NODROP)) continue;
+            if (i >= pz.trace.size() || pz.trace[i].skipped || pz.trace[i].cls != XC_OK) continue;
+            int nw = -1; bool ok = true;
+            for (size_t k = 0; k < i; k++) { const Op &q = plan.ops[k]; if (q.slot != o.slot) continue; if (q.kind == "new") { nw = (int)k; ok = q.reader.empty() && q.storage == 0; } else if (!q.re.empty()) ok = false; }
+            if (nw >= 0 && ok && o.re.empty()) { li = (int)i; ni = nw; }
+        }
+        if (li >= 0) {
+            TaskPlan sub = plan; sub.ops.clear(); Op nw = plan.ops[ni]; nw.slot = 0; Op io = plan.ops[li]; io.slot = 0; Op ds; ds.kind = "destroy"; ds.slot = 0;
+            long nnz = plan.mats[nw.mat].nnz(); int n = plan.mats[nw.mat].n;
+            io.fillfactor = 4.0 * n * (double)n / (double)std::max(1L, nnz) + 8.0; // nothing grows
+            sub.ops = {nw, io, ds}; sub.garbage = G_ZERO;
+            PlanRun ref = run_plan_single(sub, c19_cfg());
+            const std::vector<unsigned char> *xl = ref.trace[1].snap.get("L.xlusup"), *xs = ref.trace[1].snap.get("L.xlsub"), *xu = ref.trace[1].snap.get("U.xusub");
+            if (ref.trace[1].cls == XC_OK && ref.trace[1].violations.empty() && xl && xs && xu && xl->size() == (size_t)(n + 1) * sizeof(int_t)) {
+                out.stats["capacity_ladders"] += 1;
+                const int_t *pl = (const int_t *)xl->data(), *ps = (const int_t *)xs->data(), *pu = (const int_t *)xu->data();
+                Rng rc(mix3(c.seed, 0xCA9A, (uint64_t)c.run));
+                for (int t = 0; t < 9; t++) {
+                    int j = 1 + (int)rc.below((uint64_t)n); const int_t *arr = t % 3 == 0 ? pl : t % 3 == 1 ? pu : ps;
+                    long target = (long)arr[j] + (long)rc.below(3) - 1; if (target < 1) continue;
+                    Op iq = io; iq.fillfactor = ((double)target + 0.5) / (double)std::max(1L, nnz);
+                    for (int pass = 0; pass < 2; pass++) {
+                        TaskPlan q = sub; q.ops[1] = iq; q.garbage = pass ? plan.garbage : (int)G_ZERO; if (pass && plan.garbage == G_ZERO) break;
+                        PlanRun pq = run_plan_single(q, c19_cfg());
+                        out.stats["capacity_ladder_runs"] += 1;
+                        if (pq.trace[1].expansions > 0) out.stats["capacity_ladder_runs_with_expansions"] += 1;
+                        // same judgement as the lifecycle itself (sanitizer reports end the process on their own)
+                        h.u64(pq.evhash);
+                        for (size_t i = 0; i < pq.trace.size(); i++) for (auto &v : pq.trace[i].violations) { size_t bar = v.find('|'); std::string orc = v.substr(0, bar); if (orc == "hang") continue;
+                            out.violations.push_back({orc, "capacity ladder (initial capacity " + std::to_string(target) + "), op " + std::to_string(i) + ": " + v.substr(bar + 1), "C19|" + orc + "|" + sub.ops[i].kind + "|ladder"}); }
+                        for (auto &b : pq.leaks) { out.violations.push_back({"leak", "capacity ladder (initial capacity " + std::to_string(target) + "): block allocated in " + std::string(b.func ? b.func : "?") + " is still allocated after the documented destruction", std::string("C19|leak|") + (b.func ? b.func : "?") + "|" + sub.ops[1].kind + "|ladder"}); break; }
+                        if (pq.trace[1].cls == XC_OK && !pq.trace[1].skipped) {
+                            std::string df = snap_diff(ref.trace[1].snap, pq.trace[1].snap, {"stat.expansions", "ops"});
+                            if (!df.empty()) out.violations.push_back({"capacity-dependence", "incomplete LU with the basic dropping rule: field " + df + " differs when the arrays start with capacity " + std::to_string(target) + " instead of ample room (" + (pass ? "dirty" : "clean") + " memory)", "C19|capacity-dependence|" + sub.ops[1].kind + "|ladder"});
+                        }
+                    }
+                }
+            }
+        }
+    }
     out.hash = h.h;
     out.nontrivial = nfact >= 1;
     { Hash64 k; k.str(seq.str().c_str()); k.str(exits.str().c_str()); k.u64(user); out.distinct_key = std::to_string(k.h); }
